@@ -153,7 +153,7 @@ pub fn run(tier: &str, seed: u64, out: &Path) -> i32 {
     let mut distinct = std::collections::HashSet::new();
     for ((job, name), r) in jobs.iter().zip(names.iter()).zip(res.iter()) {
         let fam = name.split(':').next().unwrap_or("?");
-        o.count(&format!("{}:{}", fam, match &r.status { Status::Ok => if r.flags[1] { "parse-error" } else { "formatted" }, Status::Err(_) => "err", Status::Panic(_) => "PANIC", Status::Timeout => "timeout", Status::Died(_) => "DIED", Status::BadConfig(_) => "badconfig" }));
+        o.count(&format!("{}:{}", fam, match &r.status { Status::Ok => if r.flags[1] { "parse-error" } else { "formatted" }, Status::Err(_) => "err", Status::Panic(_) => "PANIC", Status::Timeout => "timeout", Status::Died(_) => "DIED", Status::BadConfig(_) => "badconfig", Status::Infra(_) => "infra" }));
         distinct.insert((job.src.len(), cfg_text(&job.cfg), name.clone()));
         if let Some(sig) = sig_of(&r.status) {
             o.direct_failures.push(json!({"sig": sig, "what": format!("abnormal termination: {:?}", r.status), "case": name, "config": cfg_text(&job.cfg), "src": job.src}));
